@@ -20,17 +20,39 @@ def _init(modname):
     sys.stdout = open(os.devnull, "w")  # the library prints tiebreak notices
 
 
+class CaseTimeout(BaseException):
+    """BaseException so that neither the harness nor library code swallows it"""
+
+
+def _alarm(signum, frame):
+    raise CaseTimeout()
+
+
+CASE_TIMEOUT = float(os.environ.get("VERIF_CASE_TIMEOUT", "4"))  # CPU seconds of the worker (robust against machine load)
+
+
 def _run(chunk):
+    import signal
     out = []
+    signal.signal(signal.SIGVTALRM, _alarm)
     for case in chunk:
         try:
-            out.append(_worker(case))
+            signal.setitimer(signal.ITIMER_VIRTUAL, CASE_TIMEOUT)
+            try:
+                out.append(_worker(case))
+            finally:
+                signal.setitimer(signal.ITIMER_VIRTUAL, 0)
+        except CaseTimeout:
+            out.append({"evals": 1, "key": None, "nontrivial": False, "violations": [
+                {"key": f"{str(case[1]) if len(case) > 1 and isinstance(case[1], str) else ''}:no-termination-within-{CASE_TIMEOUT}s-cpu",
+                 "what": f"run did not terminate within {CASE_TIMEOUT} CPU seconds (bounded evidence of non-termination) on {case!r}"[:600],
+                 "input": repr(case)[:600]}]})
         except Exception as e:  # harness error, never a verdict
             out.append({"harness_error": f"{e!r}\n{traceback.format_exc(limit=5)}", "case": repr(case)[:400]})
     return out
 
 
-def run(modname, cases, bound, rule, budget_s=None, chunk=40, assumptions=()):
+def run(modname, cases, bound, rule, budget_s=None, chunk=12, assumptions=()):
     """cases: iterable of picklable case descriptors. check_case(case) returns
     dict(evals=int, key=canonical key or None, nontrivial=bool, violations=[...], sample=optional)"""
     t0 = time.time()
